@@ -357,6 +357,37 @@ pub fn trie_case(rng: &mut Rng, rep: &mut Report, idx: u64, small: bool, replay:
         if let Some(b) = raw_bits_beyond(&set, n) {
             viol!("mask_bit_at_or_above_vocab", json!({"bit": b, "start": bytes_dbg(&start)}));
         }
+        // the same acceptor through the library's own adapter (FunctionalRecognizer + StackRecognizer): same token set,
+        // and the adapter is left reusable (a second walk on the same object gives the same set again)
+        if words.iter().all(|w| w.len() < toktrie::recognizer::STACK_CAPACITY - 2) {
+            struct FnRec<'a> {
+                t: &'a Table,
+                s0: usize,
+            }
+            impl<'a> toktrie::recognizer::FunctionalRecognizer<usize> for FnRec<'a> {
+                fn initial(&self) -> usize {
+                    self.s0
+                }
+                fn try_append(&self, state: usize, byte: u8) -> Option<usize> {
+                    let n = self.t.trans[state][byte as usize];
+                    if n == usize::MAX {
+                        None
+                    } else {
+                        Some(n)
+                    }
+                }
+            }
+            let mut sr = toktrie::recognizer::StackRecognizer::from(FnRec { t: &tbl, s0 });
+            for round in 0..2 {
+                let mut set2 = trie.alloc_token_set();
+                trie.add_bias(&mut sr, &mut set2, &start);
+                rep.inc("stack_recognizer_walks");
+                let got2 = mask_ids(&set2, n);
+                if got2 != got {
+                    viol!("stack_recognizer_walk_differs", json!({"start": bytes_dbg(&start), "state0": s0, "round": round, "adapter_len": got2.len(), "monitored_recognizer_len": got.len()}));
+                }
+            }
+        }
         if set.len() != n + 1 && set.len() != n {
             viol!("mask_len", json!({"len": set.len()}));
         }
